@@ -564,7 +564,43 @@ def r15(ctx):
     ctx.floor(R, 2)
 
 
+def r16(ctx):
+    R = "C06-R16"
+    ctx.rule(R, "sequence numbers are ordered modulo 2^32: no `<` / `<=` / `>` / `>=` in turmoil_net::kernel::tcp compares two raw sequence "
+                "values (Tcb::snd_una / snd_nxt / rcv_nxt / fin_seq, TcpSegment::seq / ack) - an ordering test is made on a wrapping "
+                "difference. A raw comparison agrees until a connection's window straddles the wrap; from then on no acknowledgement "
+                "is acceptable and a loss-free connection times out; and the order of the fixture's delivery queue is (deadline, "
+                "emission number), in that order")
+    SEQ = ("field:turmoil_net::kernel::socket::Tcb::snd_una", "field:turmoil_net::kernel::socket::Tcb::snd_nxt", "field:turmoil_net::kernel::socket::Tcb::rcv_nxt",
+           "field:turmoil_net::kernel::socket::Tcb::fin_seq", "field:turmoil_net::kernel::packet::TcpSegment::seq", "field:turmoil_net::kernel::packet::TcpSegment::ack")
+    n = 0
+    cnt = {}
+    for b in sorted(ctx.w.bodies.values(), key=lambda x: x.id):
+        if b.crate != "turmoil_net" or "kernel::tcp" not in b.id:
+            continue
+        for bb, i, st in b.all_stmts():
+            r = st["r"]
+            if i == "term" or r["k"] != "bin" or r["op"] not in ("Lt", "Le", "Gt", "Ge"):
+                continue
+            sl = Slicer(ctx.w, through_calls=False)
+            a, c = sl.atoms(b, r["a"]), sl.atoms(b, r["b"])
+            def raw(o):
+                og = origin(b, o)
+                return og["k"] == "place" and ("field:" + (place_last_field(og["p"]) or "")) in SEQ
+            raw_a, raw_c = raw(r["a"]), raw(r["b"])
+            if any(x.startswith(SEQ) or x == "call:u32::wrapping_sub" for x in a | c):
+                n += 1
+                bad = raw_a and raw_c
+                ctx.inst(R, f"{b.id}:seq-order#{nth(cnt, b.id)}", not bad, st["s"], "ordering test on a wrapping difference / a length" if not bad else
+                         f"`{b.id}` compares two raw sequence numbers with `{r['op']}`: once the unacknowledged window straddles 2^32 the test is false for every acceptable "
+                         "acknowledgement - snd_una stops advancing and the connection times out on a link that lost nothing")
+    ctx.floor(R, 3)
+    from . import C19
+    C19.r4(ctx)   # the fixture's queue is ordered by (deadline, emission number): a packet parked for long must not block the ones due before it
+
+
 def run(ctx):
+    r16(ctx)
     C13.r9(ctx)    # a retransmission reaching an orphaned socket is re-ACKed, not reset (the writer must see EOF, not ConnectionReset)
     r15(ctx)
     C13.r10(ctx, R="C06-R14")   # a connection with unacknowledged data / FIN never leaves the states that are retransmitted
